@@ -213,6 +213,15 @@ func (in *instr) rewriteFile() {
 	}
 }
 
+func isSimrtCall(c *ast.CallExpr) bool {
+	se, ok := c.Fun.(*ast.SelectorExpr)
+	if !ok {
+		return false
+	}
+	x, ok := se.X.(*ast.Ident)
+	return ok && x.Name == "simrt"
+}
+
 func (in *instr) objPkgPath(id *ast.Ident) (string, string) {
 	obj := in.info.Uses[id]
 	if obj == nil || obj.Pkg() == nil {
@@ -228,8 +237,33 @@ var knobConsts = map[string]bool{
 	"rare/pkg/extractor/batchers.ReadAheadBufferSize": true,
 }
 
+// knobSizeArgs are constructors of rare whose first argument sizes a pool; the argument is wrapped in
+// simrt.KnobDiv so that a world can shrink the pool (refills then happen after a few matches
+// instead of after a thousand).
+var knobSizeArgs = map[string]bool{
+	"rare/pkg/slicepool.NewIntPool": true,
+}
+
 func (in *instr) replaceSeams() {
 	astutil.Apply(in.file, func(c *astutil.Cursor) bool {
+		if ce, ok := c.Node().(*ast.CallExpr); ok && len(ce.Args) >= 1 {
+			var fid *ast.Ident
+			switch f := ce.Fun.(type) {
+			case *ast.Ident:
+				fid = f
+			case *ast.SelectorExpr:
+				fid = f.Sel
+			}
+			if fid != nil {
+				if fn, ok := in.info.Uses[fid].(*types.Func); ok && fn.Pkg() != nil && knobSizeArgs[fn.Pkg().Path()+"."+fn.Name()] {
+					if inner, isCall := ce.Args[0].(*ast.CallExpr); !isCall || !isSimrtCall(inner) {
+						in.site(ce.Pos(), "knob")
+						ce.Args[0] = call(sel("simrt", "KnobDiv"), strLit(fn.Pkg().Path()+"."+fn.Name()), ce.Args[0])
+					}
+				}
+			}
+			return true
+		}
 		if id, ok := c.Node().(*ast.Ident); ok {
 			if cn, ok := in.info.Uses[id].(*types.Const); ok && cn.Pkg() != nil && knobConsts[cn.Pkg().Path()+"."+cn.Name()] {
 				if _, isSel := c.Parent().(*ast.SelectorExpr); !isSel {
